@@ -4,7 +4,7 @@ import numpy as np
 from .. import posecase as pc, refenc
 from .c03 import make_file
 
-RULE = ("histories (length ≤ 12 quick / ≤ 40 thorough) over 4 files — two with byte-identical headers, one with a shorter and one with a longer header — of the calls: read "
+RULE = ("histories (length ≤ 12 quick / ≤ 40 thorough) over 6 files — two with byte-identical headers, one with a shorter and one with a longer header, one differing in the dimensions only, one (v0.1) differing in the version only — of the calls: read "
         "(bytes or stream, full or windowed), Pose.copy(), PoseHeaderCache.clear_cache(), and every in-place edit the API allows on earlier results (dimensions attribute, focus(), "
         "renaming components / points, editing limbs / colours, dropping a component, writing into body arrays); after every call: the new result vs a cold read of the same bytes "
         "(oracle), all other live results unchanged (oracle), no shared mutable objects between live results (id()/np.shares_memory, oracle), and every live header vs the Lean store machine; "
@@ -18,10 +18,12 @@ def gen_files(rng):
     c = make_file(rng, 3, 1, 1, 2)                                                                      # shorter header
     d = make_file(rng, 5, 4, 2, 3, ncomps=2)                                                            # longer header
     d["header"]["components"][0]["name"] = pc.hx("a_much_longer_component_name_" * 3)
-    for f in (a, b, c, d):
+    e = {"header": dict(a["header"], width=a["header"]["width"] + 3, height=1, depth=9), "body": a["body"]}   # same skeleton, other dimensions
+    for f in (a, b, c, d, e):
         # make sure every point of frame 0 is observed somewhere so that focus() has data
         f["body"]["conf"][0] = 0x3F800000
-    return [refenc.v02(x) for x in (a, b, c, d)], [a, b, c, d]
+    g = {"header": a["header"], "body": dict(a["body"], fps={"int": 30})}                                    # same header bytes except the version: a v0.1 recording
+    return [refenc.v02(x) for x in (a, b, c, d, e)] + [refenc.v01(g)], [a, b, c, d, e, g]
 
 
 def gen_history(rng, files, cases, n):
